@@ -10,11 +10,12 @@ import os
 import random
 import json
 
-from harness import common, gen, corpus, decblex
+from harness import common, gen, corpus, decblex, positions
 
 PID = "C15"
 EXTREME = [".", "1E", "1E99", "&H", "&HFFFFFF", "1234567890123456789012345678901234567890", "-", "\"", "1E-99", "&H FF", "..", "1.2.3", "- -2",
-           "+-+3", "1E+", ".E5", "&HG", "99999", "0", "\"\"", ":", "(", ")", ","]
+           "+-+3", "1E+", ".E5", "&HG", "99999", "0", "\"\"", ":", "(", ")", ",", "1E-", "2.5E-", "2.5E+", "7E -", "1 E", ".E", ".E-", "1.E", "1.E-", "-.", "+.E+",
+           "& H", "&H 1 0", "1E--1", "1E1E1", "1..", "00.00", "1E-0", "0E0", "&H0", "&H00000", "&HFFFFF", "1E38", "1E39", "1E-39", "9" * 39]
 VOCAB = ["10", "A", "B$", "=", "+", "(", ")", ",", ";", ":", "\"X\"", "PRINT", "IF", "THEN", "ELSE", "FOR", "TO", "NEXT", "GOTO", "DATA", "READ", "DIM",
          "INPUT", "REM", "1", "2.5", "&HF", "AND", "NOT", "INT", "LEFT$", "HCIRCLE", "-", "ON", "GOSUB", "STEP", "'", "?", "@", "\n20", "\n30", "PSET", "B"]
 
@@ -106,6 +107,21 @@ def main():
                 plan.append(("10 " + ":".join(combo), {}, "any", "loop-structure"))
                 if n == 2:
                     plan.append(("10 %s\n20 %s" % combo, {}, "any", "loop-structure"))
+    # every statement form cut off after each of its tokens (a dangling comma, an open parenthesis, a missing operand)
+    for s in seeds:
+        toks = [tok_text(t) for t in decblex.lex_program(s[0])[0]["toks"]]
+        for k in range(1, len(toks)):
+            plan.append(("\n".join(["10 " + " ".join(toks[:k])] + s[1:]), {}, "any", "cut-short"))
+    # every expression position with a function that becomes a procedure call in it, in the places where the statement
+    # has no statement before it to attach to: first of the program (with and without the standard prologue), after a
+    # comment, after DATA, after a line with only a label-less jump
+    for nm, lines in positions.NUM_POSITIONS + positions.STR_POSITIONS:
+        filler = ("{s}", "STR$(A)") if any("{s}" in l for l in lines) else ("{n}", "INT(A)")
+        body = positions.fill(lines, *filler)
+        for before in ([], ["1 REM X"], ["1 'X"], ["1 DATA 1,2"], ["1 GOTO 2", "2 END"], ["1 DIM Q(2)"], ["1 CLEAR 200"], ["1 A=1"]):
+            prog = before + ["7 DIM C(9),D(2,9)"] * (1 if before == ["1 A=1"] else 0) + body + ([] if any(l.startswith("90 ") for l in body) else ["90 END"])
+            for o in ({}, {"add_standard_prefix": False}):
+                plan.append(("\n".join(prog), dict(o), "ok" if before != [] or True else "any", "first-statement"))
     # option sets on valid programs
     payload = []
     for i, (src, o, exp, sit) in enumerate(plan):
